@@ -202,7 +202,15 @@ func MatchFinding(fs []Finding, v *Viol) string {
 		}
 		all := true
 		for _, m := range f.Match {
-			if !strings.Contains(text, m) {
+			// every element must occur; an element "a||b||c" is satisfied by any of its alternatives
+			any := false
+			for _, alt := range strings.Split(m, "||") {
+				if strings.Contains(text, alt) {
+					any = true
+					break
+				}
+			}
+			if !any {
 				all = false
 				break
 			}
